@@ -384,6 +384,12 @@ def exit_and_guard(m: P1Model):
             res.append(Result("ok", "release", pp.guard_text(), "consumed lines are dropped from the buffer before read() returns"))
         else:
             res.append(Result("bad", "release", "no-trim-on-exit", "read() returns without releasing the consumed part of the buffer", ploc(m, pp), witness=f"[{pp.guard_text()}] => {pp.post.brief()}"))
+    # every exit of read() evaluates the guard (unless the prologue did on every call)
+    if not pro_guard:
+        for pp in exits:
+            if "G" not in pp.lits and pp.lits.get("N") is True:
+                res.append(Result("bad", "cap", "exit-without-guard", "read() can return without evaluating the length guard: on a stream whose chunks end where this exit is taken the collected lines grow without bound",
+                                  ploc(m, pp), witness=f"[{pp.guard_text()}] => {pp.post.brief()}"))
     # guard sites
     guards = [(pp.guard_info, ploc(m, pp), pp, pp.lits["G"]) for pp in exits if "G" in pp.lits]
     sites = {}
